@@ -154,3 +154,21 @@ pub fn th_of(bits: u64) -> f64 {
 pub fn fmt_th(bits: u64) -> String {
     format!("{:?}", f64::from_bits(bits))
 }
+
+/// Apply generated hint bytes to a stream (low nibble == 1: separated from predecessor,
+/// high nibble == 1: not a number part). Hints are only put on tokens the scanner looks at:
+/// whitespace-only and bare "-" tokens are dropped by the scanner before any hint is read, and
+/// no real annotator / ASR stream flags those (DESIGN.md §4.2).
+pub fn apply_hints(stream: &mut [Tk], hints: &[u8]) -> bool {
+    let mut any = false;
+    for (i, tk) in stream.iter_mut().enumerate() {
+        if scanner_skips(&tk.text) {
+            continue;
+        }
+        let h = hints.get(i).copied().unwrap_or(0);
+        tk.sep = h & 0x0f == 1;
+        tk.nan = h >> 4 == 1;
+        any |= tk.sep || tk.nan;
+    }
+    any
+}
